@@ -7,7 +7,12 @@ model's definition.  A changed constant or operator breaks that proof even if no
 Supported statements:  const NAME: T = INT;   let NAME = EXPR;   final expression (tuple) or a `let (a,b,c) = f(x);`
 Supported expressions: integer literals (with _), identifiers, ( ), + - * / %, < <= > >= == !=, && ||, !,
                        if C { A } else { B }, u64::from(E), calls NAME(args) to other translated functions.
-Anything else raises Unsupported (reported as a broken obligation, never silently skipped)."""
+Anything else raises Unsupported (reported as a broken obligation, never silently skipped).
+
+BYTE-BUILDER MODE (second half of this file, `class ByteBuilder`, table BUILDERS): the fixed-layout box builders
+(`payload.extend_from_slice(&X.to_be_bytes()); ... build_box(b"mdhd", &payload)`) are translated statement by statement
+into `<name>_src : ... -> list N`; the expression parser P runs in TYPED mode there (every integer carries the Rust type
+written in the source; `<<`, narrowing `as` and `to_be_bytes()` take their width from that type, never from the model)."""
 import re
 
 
@@ -33,10 +38,37 @@ def fn_body(src, name):
     return params, src[i:j - 1]
 
 
-TOK = re.compile(r"\s*(?:(//[^\n]*)|(0x[0-9A-Fa-f_]+|\d[\d_]*)|([A-Za-z_][A-Za-z_0-9]*(?:::[A-Za-z_][A-Za-z_0-9]*)*)|(<<|>>|<=|>=|==|!=|&&|\|\||[-+*/%<>(){}\[\],;=!&|^.]))")
+TOK = re.compile(r"""\s*(?:(//[^\n]*)|(b?"(?:[^"\\]|\\.)*")|(0x[0-9A-Fa-f_]+|\d[\d_]*)|([A-Za-z_][A-Za-z_0-9]*(?:::[A-Za-z_][A-Za-z_0-9]*)*)|(<<|>>|<=|>=|==|!=|&&|\|\||=>|->|\.\.|[-+*/%<>(){}\[\],;=!&|^.:#?]))""")
+
+ESCAPES = {"0": 0, "n": 10, "r": 13, "t": 9, "\\": 92, '"': 34, "'": 39}
+
+
+def string_codes(lit):
+    """b"..." / "..." -> list of byte values (non-ASCII text in a plain string is rejected)"""
+    body = lit[lit.index('"') + 1:-1]
+    out, i = [], 0
+    while i < len(body):
+        c = body[i]
+        if c == "\\":
+            if i + 1 >= len(body):
+                raise Unsupported("dangling escape in %s" % lit)
+            e = body[i + 1]
+            if e == "x":
+                h = body[i + 2:i + 4]
+                if not re.fullmatch(r"[0-9A-Fa-f]{2}", h):
+                    raise Unsupported("bad \\x escape in %s" % lit)
+                out.append(int(h, 16)); i += 4; continue
+            if e not in ESCAPES:
+                raise Unsupported("escape \\%s in %s" % (e, lit))
+            out.append(ESCAPES[e]); i += 2; continue
+        if ord(c) > 127:
+            raise Unsupported("non-ASCII character in %s" % lit)
+        out.append(ord(c)); i += 1
+    return out
 
 
 def tokens(text):
+    """-> list of tokens; a string literal becomes the tuple ("bstr" | "str", [byte values])"""
     out, i = [], 0
     text = text.strip()
     while i < len(text):
@@ -46,16 +78,47 @@ def tokens(text):
         i = m.end()
         if m.group(1):
             continue
-        out.append(m.group(2) or m.group(3) or m.group(4))
+        if m.group(2):
+            out.append(("bstr" if m.group(2).startswith("b") else "str", tuple(string_codes(m.group(2)))))
+            continue
+        out.append(m.group(3) or m.group(4) or m.group(5))
     return out
 
 
-class P:
-    def __init__(self, toks, funcs, bools=()):
-        self.t, self.i, self.funcs, self.bools = toks, 0, funcs, set(bools)
+# ---- typed results -------------------------------------------------------------------------------------
+INT_BITS = {"u8": 8, "u16": 16, "u32": 32, "u64": 64, "usize": 64, "u128": 128}
+SIGNED = ("i8", "i16", "i32", "i64", "i128", "isize")
+SIGNED_BITS = {"i8": 8, "i16": 16, "i32": 32, "i64": 64, "i128": 128, "isize": 64}
+WRAPFN = {"u8": "u8", "u16": "u16", "u32": "u32", "u64": "u64"}      # the model's `as uN` helpers (Model/Base.v)
+BE = {"u16": "be16", "u32": "be32", "u64": "be64"}                     # the model's big-endian encoders
+MARK = "?WIDTH?"      # placeholder for a wrap whose width is not known yet (resolved by re-parsing with a type)
 
-    def peek(self):
-        return self.t[self.i] if self.i < len(self.t) else None
+
+class R(tuple):
+    """(kind, text) as before, plus .ty (Rust integer type or None) and .elems (array elements).
+    kinds: "num", "bool" (as before); typed mode adds "bytes", "array", "struct"."""
+    def __new__(cls, kind, text, ty=None, elems=None, info=None):
+        o = tuple.__new__(cls, (kind, text))
+        o.ty, o.elems, o.info = ty, elems, info
+        return o
+
+
+def ty_of(a):
+    return getattr(a, "ty", None)
+
+
+class P:
+    """Expression parser.  env=None: the original untyped integer mode (output unchanged).
+    env=<ByteBuilder>: typed mode, used by the byte-builder translation: every integer carries the Rust type it has
+    in the source, `<<` and narrowing `as` emit the model's wrap helper of THAT type, `.to_be_bytes()` picks
+    be16/be32/be64 from THAT type, and byte-valued forms (b"..", [x; n], [a, b], &v, builder calls) are accepted."""
+    def __init__(self, toks, funcs, bools=(), env=None):
+        self.t, self.i, self.funcs, self.bools = toks, 0, funcs, set(bools)
+        self.env = env
+        self.typed = env is not None
+
+    def peek(self, k=0):
+        return self.t[self.i + k] if self.i + k < len(self.t) else None
 
     def eat(self, x=None):
         tok = self.peek()
@@ -64,102 +127,296 @@ class P:
         self.i += 1
         return tok
 
-    # precedence: || < && < comparison < +- < */% < unary < atom
-    def expr(self):
-        return self.or_()
+    def done(self):
+        return self.i >= len(self.t)
 
-    def or_(self):
-        a = self.and_()
+    # precedence: || < && < comparison < | < ^ < & < shift < +- < */% < unary < atom
+    def expr(self, ex=None):
+        return self.or_(ex)
+
+    def or_(self, ex=None):
+        a = self.and_(ex)
         while self.peek() == "||":
-            self.eat(); b = self.and_(); a = ("bool", "(%s || %s)" % (self.b(a), self.b(b)))
+            self.eat(); b = self.and_(); a = R("bool", "(%s || %s)" % (self.b(a), self.b(b)))
         return a
 
-    def and_(self):
-        a = self.cmp()
+    def and_(self, ex=None):
+        a = self.cmp(ex)
         while self.peek() == "&&":
-            self.eat(); b = self.cmp(); a = ("bool", "(%s && %s)" % (self.b(a), self.b(b)))
+            self.eat(); b = self.cmp(); a = R("bool", "(%s && %s)" % (self.b(a), self.b(b)))
         return a
 
-    def cmp(self):
-        a = self.bitor()
+    def cmp(self, ex=None):
+        a = self.bitor(ex)
         op = self.peek()
         if op in ("<", "<=", ">", ">=", "==", "!="):
-            self.eat(); b = self.bitor()
+            self.eat(); b = self.bitor(ty_of(a))
             x, y = self.n(a), self.n(b)
-            return ("bool", {"<": "(%s <? %s)", "<=": "(%s <=? %s)", ">": "(%s <? %s)" , ">=": "(%s <=? %s)",
-                             "==": "(%s =? %s)", "!=": "(negb (%s =? %s))"}[op] % ((y, x) if op in (">", ">=") else (x, y)))
+            return R("bool", {"<": "(%s <? %s)", "<=": "(%s <=? %s)", ">": "(%s <? %s)" , ">=": "(%s <=? %s)",
+                              "==": "(%s =? %s)", "!=": "(negb (%s =? %s))"}[op] % ((y, x) if op in (">", ">=") else (x, y)))
         return a
 
-    def bitor(self):
-        a = self.bitxor()
-        while self.peek() == "|":
-            self.eat(); b = self.bitxor(); a = ("num", "(N.lor %s %s)" % (self.n(a), self.n(b)))
+    def chain(self, sub, ops, mk, ex):
+        """left-associative `x op x op x`; in typed mode operands whose type is not known from their own text
+        (untyped literals, locals without annotation) are re-parsed with the type of their siblings"""
+        spans, items, opers = [], [], []
+        s = self.i; items.append(sub(ex)); spans.append((s, self.i))
+        while self.peek() in ops:
+            opers.append(self.eat()); s = self.i; items.append(sub(ex)); spans.append((s, self.i))
+        if len(items) == 1:
+            return items[0]
+        T = None
+        if self.typed:
+            T = ex or next((ty_of(x) for x in items if x[0] == "num" and ty_of(x)), None)
+            if T:
+                for k, x in enumerate(items):
+                    if x[0] == "num" and (ty_of(x) is None or MARK in x[1]):
+                        save = self.i; self.i = spans[k][0]; y = sub(T)
+                        if self.i != spans[k][1]:
+                            raise Unsupported("internal: re-parse of an operand did not end where it did before")
+                        self.i = save; items[k] = y
+        a = items[0]
+        for op, b in zip(opers, items[1:]):
+            a = mk(op, a, b, T)
         return a
 
-    def bitxor(self):
-        a = self.bitand()
-        while self.peek() == "^":
-            self.eat(); b = self.bitand(); a = ("num", "(N.lxor %s %s)" % (self.n(a), self.n(b)))
-        return a
+    def bitor(self, ex=None):
+        return self.chain(self.bitxor, ("|",), lambda op, a, b, T: R("num", "(N.lor %s %s)" % (self.n(a), self.n(b)), T or ty_of(a) or ty_of(b)), ex)
 
-    def bitand(self):
-        a = self.shift()
-        while self.peek() == "&":
-            self.eat(); b = self.shift(); a = ("num", "(N.land %s %s)" % (self.n(a), self.n(b)))
-        return a
+    def bitxor(self, ex=None):
+        return self.chain(self.bitand, ("^",), lambda op, a, b, T: R("num", "(N.lxor %s %s)" % (self.n(a), self.n(b)), T or ty_of(a) or ty_of(b)), ex)
 
-    def shift(self):
-        a = self.add()
+    def bitand(self, ex=None):
+        return self.chain(self.shift, ("&",), lambda op, a, b, T: R("num", "(N.land %s %s)" % (self.n(a), self.n(b)), T or ty_of(a) or ty_of(b)), ex)
+
+    def shift(self, ex=None):
+        a = self.add(ex)
         while self.peek() in ("<<", ">>"):
             op = self.eat(); b = self.add()
-            a = ("num", "(%s %s %s)" % ("N.shiftl" if op == "<<" else "N.shiftr", self.n(a), self.n(b)))
+            if not self.typed:
+                a = R("num", "(%s %s %s)" % ("N.shiftl" if op == "<<" else "N.shiftr", self.n(a), self.n(b)))
+            elif op == ">>":
+                a = R("num", "(N.shiftr %s %s)" % (self.n(a), self.n(b)), ty_of(a))
+            else:
+                ty = ty_of(a)
+                if ty is not None and ty not in WRAPFN:
+                    raise Unsupported("`<<` on a value of type %s" % ty)
+                if ty is not None and re.fullmatch(r"\d+", self.n(b)) and int(self.n(b)) >= INT_BITS[ty]:
+                    raise Unsupported("shift by %s on a %s" % (self.n(b), ty))
+                # Rust's `<<` on uN drops the bits shifted out: wrap explicitly at the SOURCE type's width
+                a = R("num", "(%s (N.shiftl %s %s))" % (WRAPFN[ty] if ty else MARK, self.n(a), self.n(b)), ty)
         return a
 
-    def add(self):
-        a = self.mul()
-        while self.peek() in ("+", "-"):
-            op = self.eat(); b = self.mul(); a = ("num", "(%s %s %s)" % (self.n(a), op, self.n(b)))
-        return a
+    def arith(self, op, a, b, T):
+        ty = T or ty_of(a) or ty_of(b)
+        if self.typed and op in ("+", "-", "*") and not (ty == "usize" and op != "-"):
+            raise Unsupported("`%s` on %s may overflow: not supported in a byte builder" % (op, ty or "an untyped integer"))
+        return R("num", "(%s %s %s)" % (self.n(a), {"+": "+", "-": "-", "*": "*", "/": "/", "%": "mod"}[op], self.n(b)), ty)
 
-    def mul(self):
-        a = self.unary()
-        while self.peek() in ("*", "/", "%"):
-            op = self.eat(); b = self.unary()
-            a = ("num", "(%s %s %s)" % (self.n(a), {"*": "*", "/": "/", "%": "mod"}[op], self.n(b)))
-        return a
+    def add(self, ex=None):
+        return self.chain(self.mul, ("+", "-"), self.arith, ex)
 
-    def unary(self):
+    def mul(self, ex=None):
+        return self.chain(self.unary, ("*", "/", "%"), self.arith, ex)
+
+    def unary(self, ex=None):
         if self.peek() == "!":
-            self.eat(); a = self.unary(); return ("bool", "(negb %s)" % self.b(a))
-        a = self.atom()
-        while self.peek() == ".":
-            self.eat(); meth = self.eat()
+            self.eat(); a = self.unary(); return R("bool", "(negb %s)" % self.b(a))
+        if self.typed and self.peek() == "&":
+            self.eat()
+            if self.peek() == "mut":
+                raise Unsupported("&mut borrow")
+            return self.unary(ex)                                # a shared borrow denotes the same bytes / value
+        a = self.atom(ex)
+        while self.peek() == "." or (self.typed and self.peek() == "[" and a[0] == "bytes"):
+            if self.eat() == "[":
+                k = self.eat(); self.eat("]")
+                if not (isinstance(k, str) and re.fullmatch(r"\d+", k)):
+                    raise Unsupported("non-constant index")
+                self.env.notes.append("precondition (the source panics otherwise): index %s of %s is in bounds" % (k, a[1]))
+                a = R("num", "(nth %s%%nat %s 0)" % (k, a[1]), "u8")
+                continue
+            meth = self.eat()
+            if not isinstance(meth, str):
+                raise Unsupported("`.` followed by %r" % (meth,))
+            if self.typed:
+                a = self.postfix(a, meth)
+                continue
             if meth != "saturating_sub":
                 raise Unsupported("method .%s" % meth)
             self.eat("("); b = self.expr(); self.eat(")")
-            a = ("num", "(%s - %s)" % (self.n(a), self.n(b)))       # N subtraction truncates at 0
+            a = R("num", "(%s - %s)" % (self.n(a), self.n(b)))       # N subtraction truncates at 0
         while self.peek() == "as":
             self.eat(); ty = self.eat()
-            # only casts that cannot lose bits for the byte-sized operands of the translated expressions
-            if ty not in ("u16", "u32", "u64", "u128", "usize"):
-                raise Unsupported("narrowing or signed cast `as %s`" % ty)
+            if not self.typed:
+                # only casts that cannot lose bits for the byte-sized operands of the translated expressions
+                if ty not in ("u16", "u32", "u64", "u128", "usize"):
+                    raise Unsupported("narrowing or signed cast `as %s`" % ty)
+                continue
+            if ty not in INT_BITS:
+                raise Unsupported("cast `as %s`" % (ty,))
+            src = ty_of(a)
+            if src is not None and INT_BITS[src] <= INT_BITS[ty] and MARK not in a[1]:
+                a = R("num", self.n(a), ty)                                        # widening: value unchanged
+            elif ty in WRAPFN:
+                a = R("num", "(%s %s)" % (WRAPFN[ty], self.n(a).replace(MARK, WRAPFN[ty])), ty)   # `as uN` keeps the low N bits
+            else:
+                raise Unsupported("narrowing cast `as %s`" % ty)
         return a
 
-    def atom(self):
+    def postfix(self, a, meth):
+        """typed mode: `a.meth` / `a.meth(..)`"""
+        if a[0] == "struct":
+            if self.peek() == "(":
+                self.eat("("); self.eat(")")
+                return self.env.struct_method(a, meth)
+            return self.env.field(a, meth)
+        if a[0] == "structval":
+            if self.peek() == "(":
+                return self.env.struct_update(a, meth, self)
+            if meth not in a.info:
+                raise Unsupported("struct %s has no field %s" % (a[1], meth))
+            return a.info[meth]
+        if a[0] == "optstr":                             # Option<&str> parameter: option (list N), UTF-8 bytes
+            if meth != "unwrap_or":
+                raise Unsupported("method .%s on an Option<&str>" % meth)
+            self.eat("("); d = self.expr(); self.eat(")")
+            return R("bytes", "(match %s with Some s_ => s_ | None => %s end)" % (a[1], self.bytes_of(d)))
+        if a[0] == "option":
+            if meth != "unwrap_or":
+                raise Unsupported("method .%s on an Option" % meth)
+            self.eat("("); d = self.expr(a.ty if a.ty in INT_BITS else None); self.eat(")")
+            return d if a.info is None else a.info          # the Option is known statically: None -> the default
+        if self.peek() != "(":
+            raise Unsupported("field .%s of a %s" % (meth, a[0]))
+        self.eat("(")
+        if meth == "to_be_bytes":
+            self.eat(")")
+            ty = ty_of(a)
+            if a[0] != "num" or MARK in a[1]:
+                raise Unsupported("to_be_bytes() on %s" % (a[1] if a[0] != "array" else "an array"))
+            if ty in SIGNED_BITS:
+                # two's complement of a NON-NEGATIVE literal is the literal itself; anything else signed is rejected
+                if not re.fullmatch(r"\d+", a[1]) or SIGNED_BITS[ty] not in (16, 32, 64):
+                    raise Unsupported("to_be_bytes() on a signed %s that is not a non-negative literal" % ty)
+                return R("bytes", "(be%d %s)" % (SIGNED_BITS[ty], a[1]))
+            if ty == "u8":
+                return R("bytes", "[%s]" % a[1])
+            if ty not in BE:
+                raise Unsupported("cannot tell the width of `%s.to_be_bytes()` from the source (type %s)" % (a[1], ty))
+            return R("bytes", "(%s %s)" % (BE[ty], a[1]))
+        if meth == "len":
+            self.eat(")")
+            return R("num", "(len %s)" % self.bytes_of(a), "usize")
+        if meth == "get" and a[0] == "bytes":
+            # v.get(K).copied().unwrap_or(D): the K-th byte, D when there is none
+            k = self.eat(); self.eat(")")
+            if not (isinstance(k, str) and re.fullmatch(r"\d+", k)):
+                raise Unsupported("non-constant index in .get()")
+            for t in (".", "copied", "(", ")", ".", "unwrap_or", "("):
+                self.eat(t)
+            d = self.expr("u8"); self.eat(")")
+            return R("num", "(nth %s%%nat %s %s)" % (k, a[1], self.n(d)), "u8")
+        if meth in ("min", "max"):
+            b = self.expr(ty_of(a)); self.eat(")")
+            if ty_of(a) is None and ty_of(b) is not None:
+                raise Unsupported(".%s on an untyped integer" % meth)
+            return R("num", "(N.%s %s %s)" % (meth, self.n(a), self.n(b)), ty_of(a))
+        if meth == "saturating_sub":
+            b = self.expr(ty_of(a)); self.eat(")")
+            return R("num", "(%s - %s)" % (self.n(a), self.n(b)), ty_of(a))
+        raise Unsupported("method .%s" % meth)
+
+    def bytes_of(self, a):
+        """typed mode: the Gallina list for a byte-valued result"""
+        if a[0] == "bytes":
+            return a[1]
+        if a[0] == "array":
+            if a.ty not in (None, "u8"):
+                raise Unsupported("array of %s used as bytes" % a.ty)
+            for e in a.elems:
+                if MARK in e[1]:
+                    raise Unsupported("byte expression of unknown width: %s" % e[1])
+            return "[%s]" % "; ".join(self.n(e) for e in a.elems)
+        raise Unsupported("expected bytes, found %s %s" % (a[0], a[1]))
+
+    def literal(self, value, ex):
+        ty = ex
+        if self.peek() in INT_BITS or self.peek() in SIGNED_BITS:
+            ty = self.eat()                                       # suffix: 0u32, 0x0048_0000_u32
+        if ty in INT_BITS and value >= 2 ** INT_BITS[ty]:
+            raise Unsupported("literal %d does not fit %s" % (value, ty))
+        if ty in SIGNED_BITS and value >= 2 ** (SIGNED_BITS[ty] - 1):
+            raise Unsupported("literal %d does not fit %s" % (value, ty))
+        return R("num", str(value), ty)       # a signed type is kept only on a non-negative literal (see to_be_bytes)
+
+    def array(self, ex):
+        """after `[`: `e; N]` or `e, e, ...]`"""
+        ex = ex if ex in INT_BITS else None
+        spans, items = [], []
+        if self.peek() == "]":
+            self.eat(); return R("array", None, ex, [])
+        s = self.i; items.append(self.expr(ex)); spans.append((s, self.i))
+        if self.peek() == ";":
+            self.eat(); n = self.eat(); self.eat("]")
+            if not (isinstance(n, str) and re.fullmatch(r"\d+", n)) or int(n) > 4096:
+                raise Unsupported("array repeat count %r" % (n,))
+            return R("array", None, ty_of(items[0]), [items[0]] * int(n))
+        while self.peek() == ",":
+            self.eat()
+            if self.peek() == "]":
+                break
+            s = self.i; items.append(self.expr(ex)); spans.append((s, self.i))
+        self.eat("]")
+        T = ex or next((ty_of(x) for x in items if ty_of(x)), None)
+        if T:
+            for k, x in enumerate(items):
+                if x[0] == "num" and (ty_of(x) is None or MARK in x[1]):
+                    save = self.i; self.i = spans[k][0]; items[k] = self.expr(T); self.i = save
+        for x in items:
+            self.n(x)
+            if T and ty_of(x) not in (None, T):
+                raise Unsupported("array elements of types %s and %s" % (T, ty_of(x)))
+        return R("array", None, T, items)
+
+    def atom(self, ex=None):
         tok = self.eat()
+        if not isinstance(tok, str):
+            if self.typed:                               # b"...": the bytes; "...": its UTF-8 bytes (ASCII only)
+                return R("bytes", "[%s]" % "; ".join(str(c) for c in tok[1]))
+            raise Unsupported("string literal")
         if re.fullmatch(r"0x[0-9A-Fa-f_]+", tok):
-            return ("num", str(int(tok.replace("_", ""), 16)))
+            if self.typed:
+                return self.literal(int(tok.replace("_", ""), 16), ex)
+            return R("num", str(int(tok.replace("_", ""), 16)))
         if re.fullmatch(r"\d[\d_]*", tok):
-            return ("num", tok.replace("_", ""))
+            if self.typed:
+                return self.literal(int(tok.replace("_", "")), ex)
+            return R("num", tok.replace("_", ""))
         if tok == "(":
-            a = self.expr(); self.eat(")"); return a
+            a = self.expr(ex); self.eat(")"); return a
         if tok == "if":
-            c = self.expr(); self.eat("{"); a = self.expr(); self.eat("}"); self.eat("else"); self.eat("{"); b = self.expr(); self.eat("}")
+            c = self.expr(); self.eat("{"); s = self.i; a = self.expr(ex); e_ = self.i; self.eat("}")
+            self.eat("else"); self.eat("{"); b = self.expr(ex or ty_of(a)); self.eat("}")
             if a[0] != b[0]:
                 raise Unsupported("if branches of different kinds")
-            return (a[0], "(if %s then %s else %s)" % (self.b(c), a[1], b[1]))
+            if self.typed and a[0] == "num" and ty_of(a) is None and ty_of(b) is not None:
+                save = self.i; self.i = s; a = self.expr(ty_of(b)); self.i = save
+            if a[0] not in ("num", "bool"):
+                raise Unsupported("if expression of kind %s" % a[0])
+            return R(a[0], "(if %s then %s else %s)" % (self.b(c), a[1], b[1]), ty_of(a) or ty_of(b))
+        if self.typed and tok == "[":
+            return self.array(ex)
+        if self.typed and tok == "vec" and self.peek() == "!" and self.peek(1) == "[":
+            self.eat(); self.eat()
+            a = self.array("u8" if ex is None else ex)
+            return R("bytes", self.bytes_of(a))
+        if self.typed and tok == "match":
+            return self.match_(ex)
         if tok == "u64::MAX":
-            return ("num", "18446744073709551615")
+            return R("num", "18446744073709551615", "u64")
+        if self.typed and tok in ("u8::MAX", "u16::MAX", "u32::MAX"):
+            return R("num", str(2 ** INT_BITS[tok[:-5]] - 1), tok[:-5])
         if tok == "u64::try_from":
             self.eat("("); a = self.expr(); self.eat(")"); self.eat("."); m_ = self.eat()
             if m_ != "unwrap_or":
@@ -167,10 +424,14 @@ class P:
             self.eat("("); d = self.expr(); self.eat(")")
             if self.n(d) != "18446744073709551615":
                 raise Unsupported("u64::try_from(..).unwrap_or(<not u64::MAX>)")
-            return ("num", "(N.min %s 18446744073709551615)" % self.n(a))
+            return R("num", "(N.min %s 18446744073709551615)" % self.n(a), "u64")
         if tok == "u64::from":
             self.eat("("); a = self.expr(); self.eat(")")
-            return ("num", "(if %s then 1 else 0)" % self.b(a)) if a[0] == "bool" else a
+            return R("num", "(if %s then 1 else 0)" % self.b(a), "u64") if a[0] == "bool" else a
+        if self.typed and re.fullmatch(r"[A-Za-z_][A-Za-z_0-9]*(::[A-Za-z_][A-Za-z_0-9]*)*", tok):
+            if self.peek() == "(":
+                return self.env.call(tok, self, ex)
+            return self.env.ident(tok, ex)
         if re.fullmatch(r"[A-Za-z_][A-Za-z_0-9]*", tok):
             if self.peek() == "(":
                 if tok not in self.funcs:
@@ -181,23 +442,58 @@ class P:
                     if self.peek() == ",":
                         self.eat()
                 self.eat(")")
-                return ("num", "(%s %s)" % (self.funcs[tok], " ".join(args)))
+                return R("num", "(%s %s)" % (self.funcs[tok], " ".join(args)))
             if self.peek() == "[":
                 self.eat("["); k = self.eat(); self.eat("]")
                 if not re.fullmatch(r"\d+", k):
                     raise Unsupported("non-constant index")
-                return ("num", "%s%s" % (tok, k))          # frame[3] -> frame3
-            return ("bool" if tok in self.bools else "num", tok)
+                return R("num", "%s%s" % (tok, k))          # frame[3] -> frame3
+            return R("bool" if tok in self.bools else "num", tok)
         raise Unsupported("unsupported token %r" % tok)
+
+    def match_(self, ex):
+        """match X { INT => E, ..., _ => E }  ->  if X =? INT then E else ... else E"""
+        x = self.expr(); self.eat("{")
+        arms, default = [], None
+        while self.peek() != "}":
+            pat = self.eat()
+            if pat == "_":
+                self.eat("=>"); default = (self.i, self.expr(ex))
+            elif isinstance(pat, str) and re.fullmatch(r"0x[0-9A-Fa-f_]+|\d[\d_]*", pat):
+                v = int(pat.replace("_", ""), 0) if pat.startswith("0x") else int(pat.replace("_", ""))
+                self.eat("=>"); arms.append((v, self.i, self.expr(ex)))
+            else:
+                raise Unsupported("match pattern %r" % (pat,))
+            if self.peek() == ",":
+                self.eat()
+            elif self.peek() != "}":
+                raise Unsupported("match arm not followed by `,`")
+            if default is not None and self.peek() != "}":
+                raise Unsupported("match arm after `_`")
+        self.eat("}")
+        if default is None:
+            raise Unsupported("match without `_` arm")
+        results = [a[2] for a in arms] + [default[1]]
+        T = ex or next((ty_of(r) for r in results if ty_of(r)), None)
+        if T and any(ty_of(r) is None for r in results):
+            save = self.i
+            for k, (v, pos, r) in enumerate(arms):
+                self.i = pos; arms[k] = (v, pos, self.expr(T))
+            self.i = default[0]; default = (default[0], self.expr(T))
+            self.i = save
+        out = self.n(default[1])
+        for v, _, r in reversed(arms):
+            out = "(if %s =? %d then %s else %s)" % (self.n(x), v, self.n(r), out)
+        return R("num", out, T)
 
     def n(self, a):
         if a[0] != "num":
-            raise Unsupported("boolean used as a number")
+            raise Unsupported("%s used as a number" % ("boolean" if a[0] == "bool" else a[0]))
         return a[1]
 
     def b(self, a):
         if a[0] != "bool":
-            raise Unsupported("number used as a boolean")
+            raise Unsupported("%s used as a boolean" % ("number" if a[0] == "num" else a[0]))
         return a[1]
 
 
@@ -313,10 +609,1018 @@ LETS = [
 ]
 
 
+# =====================================================================================================
+# BYTE-BUILDER MODE
+# =====================================================================================================
+# Translates the fixed-layout box builders (`let mut payload = Vec::new(); payload.extend_from_slice(..); ...;
+# build_box(b"xxxx", &payload)`) into Gallina definitions `<name>_src : ... -> list N`, the concatenation, in
+# source order, of one term per statement.  The WIDTH of every `to_be_bytes()` and of every wrap (`<<`, `as`)
+# comes from the Rust type the expression has in the source text: a literal suffix (0u32), the declared type
+# of a parameter / struct field / const, or an `as` cast -- never from the model.
+#
+# Supported statement forms (anything else in a function that is asked for is reported as a problem):
+#   let mut B = Vec::new();  let mut B = Vec::with_capacity(..);  let [mut] B = vec![e; n] | vec![a, b, ..];
+#   B.extend_from_slice(&E.to_be_bytes());      E an integer expression (typed by the source)
+#   B.extend_from_slice(b"....");  B.extend_from_slice(&[e; n]);  B.extend_from_slice(&[a, b, ..]);
+#   B.extend_from_slice(&V) / (V)                V a buffer, a let-bound byte value, an array, a byte parameter/field
+#   B.extend_from_slice(&f(..));                 f a builder translated before, or one listed in OPAQUE / OPAQUE_FN
+#   B.push(E);
+#   let X = <integer expression> | match V { INT => E, .., _ => E };      (inlined, or a Gallina let if read twice)
+#   let X = [a, b, ..];  let X = f(..);  let (a, b, c) = if C { (x, y, z) } else { (p, q, r) };  (component-wise)
+#   let X = Type::default().method(args);       evaluated symbolically from `impl Default for Type` and the method's
+#                                               field assignments (`fn method(mut self, ..) -> Self`)
+#   for V in ARRAY { .. }   for _ in A..B { .. }   (literal bounds; unrolled)   for i in 0..E { B.push(i); }  (E: u8)
+#   if C { .. return E; }   (top level: the rest of the function becomes the else branch)
+#   if C { .. } [else { .. }]   (appends only: becomes `(if C then .. else ..)`)
+#   if let Some(x) = &V.field { .. } else { .. }   (V a symbolic struct value: the branch is chosen statically)
+#   assert_invariant!(..);  debug_assert!(..);   (no bytes; recorded as a precondition comment and, when the condition
+#                                               can be translated, in the definition <name>_src_pre : .. -> bool)
+#   tail:  B  |  build_box(b"xxxx", &B)  |  f(..)  |  [a, b]  |  E.to_be_bytes()  |  return E;
+# Expressions (parser P in typed mode): literals with/without suffix, parameters, struct fields p.f (a parameter p_f),
+#   p.method() on a struct parameter (a parameter p_method typed by the declared return type), consts,
+#   | ^ & << >> / %, + and * on usize only, comparisons, && || !, if/else, match on integer patterns, `as uN`,
+#   .min .max .saturating_sub .len(), v[K] (K literal), v.get(K).copied().unwrap_or(D), o.unwrap_or(D).
+# Wrapping: `a << k` on uN is `uN (N.shiftl a k)`; a narrowing `x as uN` is `uN x`; widening casts leave the value.
+
+RESERVED = set("len be16 be32 be64 u8 u16 u32 u64 build_box N app if then else let in fun match with end as at return "
+               "forall exists Type Set Prop bytes byte zeros list nil cons fix cofix where mod".split())
+
+# callees that are NOT translated: their result becomes a `list N` parameter of the caller's translation, and the
+# agreement theorem instantiates it with the model's function.  Each is tied to the source elsewhere or not at all:
+# OPAQUE_FN: the callee is a FUNCTION parameter (`<callee>_fn`) applied to the translated arguments;
+# OPAQUE: the callee takes a whole struct: the bytes it returns are a parameter (`<callee>_result`), arguments not read.
+OPAQUE_FN = {
+    "encode_language_code": "chars()/take(3)/collect over a &str is out of reach; its packing expression is tied by language_packing_source_agrees",
+}
+OPAQUE = {
+    "build_hvcc_fmp4": "constructs a HevcConfig",
+    "build_av1c_fmp4": "calls the AV1 sequence-header parser",
+    "build_vpcc_fmp4": "if let over an Option",
+    "build_stsd_fmp4": "if/else chain over Option::is_some()",
+}
+
+
+def comment(text):
+    """a Coq comment line that cannot be broken by its content (nested comment marks, string quotes)"""
+    return "(* %s *)\n" % text.replace("(*", "( *").replace("*)", "* )").replace('"', "'")
+
+
+def coq_ident(name):
+    return name + "_" if name in RESERVED else name
+
+
+def match_close(toks, i):
+    """toks[i] is an opening bracket: index of its partner"""
+    pairs = {"(": ")", "[": "]", "{": "}"}
+    depth = 0
+    for j in range(i, len(toks)):
+        if toks[j] in pairs:
+            depth += 1
+        elif toks[j] in (")", "]", "}"):
+            depth -= 1
+            if depth == 0:
+                return j
+    raise Unsupported("unbalanced brackets")
+
+
+def find0(toks, i, what):
+    """first index >= i of a token in `what` outside any bracket, or None"""
+    depth = 0
+    for j in range(i, len(toks)):
+        t = toks[j]
+        if depth == 0 and t in what:
+            return j
+        if t in ("(", "[", "{"):
+            depth += 1
+        elif t in (")", "]", "}"):
+            depth -= 1
+            if depth < 0:
+                return None
+    return None
+
+
+def show(toks, n=12):
+    return " ".join(t if isinstance(t, str) else '"…"' for t in toks[:n]) + (" …" if len(toks) > n else "")
+
+
+def parse_if(toks, i):
+    b = find0(toks, i + 1, ("{",))
+    if b is None:
+        raise Unsupported("if without a block")
+    e = match_close(toks, b)
+    cond, then, i = toks[i + 1:b], split_stmts(toks[b + 1:e]), e + 1
+    els = None
+    if i < len(toks) and toks[i] == "else":
+        if i + 1 < len(toks) and toks[i + 1] == "{":
+            e2 = match_close(toks, i + 1)
+            els, i = split_stmts(toks[i + 2:e2]), e2 + 1
+        elif i + 1 < len(toks) and toks[i + 1] == "if":
+            s, i = parse_if(toks, i + 1)
+            els = [s]
+        else:
+            raise Unsupported("else without a block")
+    return ("if", cond, then, els), i
+
+
+def split_stmts(toks):
+    out, i = [], 0
+    while i < len(toks):
+        t = toks[i]
+        if t == ";":
+            i += 1
+        elif t == "if":
+            s, i = parse_if(toks, i)
+            out.append(s)
+        elif t == "for":
+            k = find0(toks, i + 1, ("in",))
+            b = find0(toks, i + 1, ("{",))
+            if k is None or b is None or b < k:
+                raise Unsupported("for loop: %s" % show(toks[i:]))
+            e = match_close(toks, b)
+            out.append(("for", toks[i + 1:k], toks[k + 1:b], split_stmts(toks[b + 1:e])))
+            i = e + 1
+        else:
+            j = find0(toks, i, (";",))
+            if j is None:
+                out.append(("tail", toks[i:]))
+                i = len(toks)
+            else:
+                out.append(("return" if t == "return" else "let" if t == "let" else "expr", toks[i + (t in ("return", "let")):j]))
+                i = j + 1
+    return out
+
+
+def fn_sig(src, name):
+    """-> ([(param, type text)], return type text, body text); src has its comments removed"""
+    ms = list(re.finditer(r"\bfn\s+%s\s*(<[^>]*>)?\s*\(" % re.escape(name), src))
+    if not ms:
+        raise Unsupported("function %s not found" % name)
+    if len(ms) > 1:
+        raise Unsupported("function %s is defined %d times" % (name, len(ms)))
+    i = ms[0].end()
+    depth, j = 1, i
+    while depth:
+        if j >= len(src):
+            raise Unsupported("unbalanced parentheses in the signature of %s" % name)
+        depth += {"(": 1, ")": -1}.get(src[j], 0)
+        j += 1
+    ptext = src[i:j - 1]
+    k, depth = j, 0
+    while k < len(src) and not (src[k] == "{" and depth == 0):
+        if src[k] == ";" and depth == 0:
+            raise Unsupported("function %s has no body" % name)
+        depth += {"[": 1, "(": 1, "]": -1, ")": -1}.get(src[k], 0)
+        k += 1
+    if k >= len(src):
+        raise Unsupported("function %s has no body" % name)
+    ret = src[j:k].strip()
+    ret = ret[2:].strip() if ret.startswith("->") else ""
+    depth, e = 1, k + 1
+    while depth:
+        if e >= len(src):
+            raise Unsupported("unbalanced braces in %s" % name)
+        depth += {"{": 1, "}": -1}.get(src[e], 0)
+        e += 1
+    params, depth, cur = [], 0, ""
+    for ch in ptext + ",":
+        if ch == "," and depth == 0:
+            if cur.strip():
+                if cur.strip() in ("self", "mut self", "&self", "&mut self"):
+                    params.append((cur.strip(), "Self")); cur = ""
+                    continue
+                if ":" not in cur:
+                    raise Unsupported("parameter %r of %s" % (cur.strip(), name))
+                pn, pt = cur.split(":", 1)
+                pn = pn.strip()
+                if pn.startswith("mut "):
+                    raise Unsupported("mutable parameter %s of %s" % (pn, name))
+                params.append((pn, pt.strip()))
+            cur = ""
+            continue
+        depth += {"(": 1, "[": 1, "<": 1, ")": -1, "]": -1, ">": -1}.get(ch, 0)
+        cur += ch
+    return params, ret, src[k + 1:e - 1]
+
+
+class Ctx:
+    """what is known about the crate: sources (comments removed), struct fields, integer consts, translated builders"""
+    def __init__(self, repo, files):
+        self.repo, self.src, self.problems = repo, {}, []
+        for f in files:
+            try:
+                self.src[f] = re.sub(r"//[^\n]*", "", open(repo + "/" + f).read())
+            except OSError as e:
+                self.problems.append("%s: cannot read: %s" % (f, e))
+        self.structs, self.consts = {}, {}
+        for f in sorted(self.src):
+            for m in re.finditer(r"\bstruct\s+([A-Za-z_0-9]+)\s*\{([^{}]*)\}", self.src[f]):
+                fields = []
+                for fm in re.finditer(r"(?:pub(?:\([a-z]+\))?\s+)?([a-z_][A-Za-z_0-9]*)\s*:\s*([^,\n]+(?:<[^>\n]*>)?)\s*(?:,|$)", re.sub(r"#\[[^\]]*\]", "", m.group(2))):
+                    fields.append((fm.group(1), fm.group(2).strip()))
+                self.structs.setdefault(m.group(1), []).append((f, fields))
+            for m in re.finditer(r"\bconst\s+([A-Z_0-9]+)\s*:\s*([a-z0-9]+)\s*=\s*([0-9A-Fa-fx_]+)\s*;", self.src[f]):
+                self.consts.setdefault(m.group(1), []).append((f, m.group(2), m.group(3)))
+        self.sigs = {}          # (file, fn) -> Sig
+
+    def struct_fields(self, name):
+        defs = self.structs.get(name.split("::")[-1], [])
+        if len(defs) != 1:
+            raise Unsupported("struct %s has %d definitions in the files read" % (name, len(defs)))
+        return defs[0][1]
+
+    def const(self, name, file):
+        defs = self.consts.get(name, [])
+        here = [d for d in defs if d[0] == file] or defs
+        if len(set((d[1], d[2]) for d in here)) != 1:
+            return None
+        return here[0]
+
+    def classify(self, ty):
+        t = ty.replace(" ", "")
+        if t in INT_BITS:
+            return ("int", t)
+        if t in SIGNED:
+            return ("sint", t)
+        if t == "Option<&str>":
+            return ("optstr", None)
+        if t == "&str":
+            return ("str", None)
+        m = re.fullmatch(r"Option<(.*)>", t)
+        if m:
+            return ("option", m.group(1))
+        if t == "bool":
+            return ("bool", None)
+        if re.fullmatch(r"&?\[u8(;\d+)?\]|&?Vec<u8>", t):
+            return ("bytes", None)
+        m = re.fullmatch(r"&?((?:[a-z_0-9]+::)*[A-Z][A-Za-z0-9_]*)", t)
+        if m and m.group(1).split("::")[-1] in self.structs:
+            return ("struct", m.group(1).split("::")[-1])
+        return ("other", t)
+
+
+class Sig:
+    def __init__(self, coq, params, opaque):
+        self.coq, self.params, self.opaque = coq, params, opaque     # params: [dict(kind, name, ty, fields)]
+
+
+class State:
+    def __init__(self, vars_):
+        self.vars = vars_
+
+    def fork(self):
+        return State(dict((k, (("buf", list(v[1])) if v[0] == "buf" else v)) for k, v in self.vars.items()))
+
+
+class ByteBuilder:
+    def __init__(self, ctx, file, name, coq):
+        self.ctx, self.file, self.name, self.coq = ctx, file, name, coq
+        self.used = {}           # struct parameter -> set of fields / methods used
+        self.opaque = []         # [(coq parameter name, callee, reason)]
+        self.notes = []
+        self.shared = {}         # (local, kind, Gallina text) -> placeholder
+        self.methods = {}        # struct parameter -> ["meth()", ..] in order of first use
+        self.method_kind = {}
+        self.pre = []            # asserted conditions (Gallina bool); None once one of them could not be translated
+        self.noshare = False
+        self.st = None
+
+    # ---- environment interface used by P --------------------------------------------------------------
+    def parse(self, toks, ex=None):
+        if not toks:
+            raise Unsupported("empty expression")
+        p = P(toks, {}, env=self)
+        r = p.expr(ex)
+        if not p.done():
+            raise Unsupported("cannot parse `%s` (stopped at %r)" % (show(toks), p.peek()))
+        return r
+
+    def ident(self, name, ex):
+        v = self.st.vars.get(name)
+        if v is None:
+            c = self.ctx.const(name.split("::")[-1], self.file) if re.fullmatch(r"(?:[a-z_0-9]+::)*[A-Z][A-Z_0-9]*", name) else None
+            if c is None:
+                raise Unsupported("unknown identifier `%s`" % name)
+            val = int(c[2].replace("_", ""), 16) if c[2].startswith("0x") else int(c[2].replace("_", ""))
+            if c[1] not in INT_BITS or val >= 2 ** INT_BITS[c[1]]:
+                raise Unsupported("const %s: %s = %s" % (name, c[1], c[2]))
+            return R("num", str(val), c[1])            # const NAME: T = V  -> the literal V at type T
+        if v[0] == "val":
+            return self.share(name, v[1]) if len(v) > 2 else v[1]
+        if v[0] == "lazy":
+            _, toks, declared, snapshot = v
+            saved, self.st = self.st, State(snapshot)
+            try:
+                r = self.parse(toks, declared or ex)
+            finally:
+                self.st = saved
+            if declared and r[0] == "num":
+                r = R("num", r[1], declared)
+            return self.share(name, r)
+        if v[0] == "buf":
+            return self.share(name, R("bytes", self.join(v[1])))
+        if v[0] == "struct":
+            return R("struct", name, info=v[1])
+        if v[0] == "other":
+            raise Unsupported("parameter `%s` of type %s used outside an OPAQUE call" % (name, v[1]))
+        raise Unsupported("internal: variable kind %s" % v[0])
+
+    def field(self, a, fname):
+        pname, sname = a[1], a.info
+        for fn_, fty in self.ctx.struct_fields(sname):
+            if fn_ == fname:
+                kind, ty = self.ctx.classify(fty)
+                coq = coq_ident("%s_%s" % (pname, fname))
+                self.used.setdefault(pname, set()).add(fname)
+                if kind == "int":
+                    return R("num", coq, ty)
+                if kind in ("bool", "bytes"):
+                    return R(kind, coq)
+                raise Unsupported("field %s.%s of type %s" % (pname, fname, fty))
+        raise Unsupported("struct %s has no field %s" % (sname, fname))
+
+    def struct_method(self, a, meth):
+        """`p.meth()` on a struct parameter, meth(&self) -> uN | bool: its value is a parameter of the translation
+        (named p_meth); only the declared return type is read from the source"""
+        pname, sname = a[1], a.info
+        defs = self.ctx.structs.get(sname, [])
+        if len(defs) != 1:
+            raise Unsupported("struct %s has %d definitions in the files read" % (sname, len(defs)))
+        ms = re.findall(r"\bfn\s+%s\s*\(\s*&self\s*\)\s*->\s*([A-Za-z0-9_]+)\s*\{" % re.escape(meth), self.ctx.src[defs[0][0]])
+        if len(ms) != 1:
+            raise Unsupported("method %s.%s(): %d definitions `fn %s(&self) -> T` in %s" % (pname, meth, len(ms), meth, defs[0][0]))
+        kind, ty = self.ctx.classify(ms[0])
+        if kind not in ("int", "bool"):
+            raise Unsupported("method %s.%s() returns %s" % (pname, meth, ms[0]))
+        if any(f == meth for f, _ in self.ctx.struct_fields(sname)):
+            raise Unsupported("%s is both a field and a method of %s" % (meth, sname))
+        coq = coq_ident("%s_%s" % (pname, meth))
+        if meth + "()" not in self.methods.setdefault(pname, []):
+            self.methods[pname].append(meth + "()")
+            self.notes.append("NOT TRANSLATED: the value of %s.%s() is the parameter %s (declared return type %s)" % (pname, meth, coq, ms[0]))
+        self.method_kind[(pname, meth)] = kind
+        return R("num", coq, ty) if kind == "int" else R("bool", coq)
+
+    def skip_args(self, p):
+        p.eat("(")
+        depth = 1
+        while depth:
+            t = p.eat()
+            depth += 1 if t in ("(", "[", "{") else -1 if t in (")", "]", "}") else 0
+
+    def field_value(self, fty, toks):
+        """the value written for a struct field of type fty in a struct literal"""
+        kind, ty = self.ctx.classify(fty)
+        if kind in ("int", "sint"):
+            r = self.parse(toks, ty)
+            if r[0] != "num" or ty_of(r) != ty or MARK in r[1] or (kind == "sint" and not re.fullmatch(r"\d+", r[1])):
+                raise Unsupported("field value `%s` for type %s" % (show(toks), fty))
+            return r
+        if kind == "bool":
+            if toks not in (["true"], ["false"]):
+                raise Unsupported("field value `%s` for type bool" % show(toks))
+            return R("bool", toks[0])
+        if kind == "option":
+            if toks == ["None"]:
+                return R("option", None, ty, info=None)
+            if len(toks) >= 4 and toks[:2] == ["Some", "("] and match_close(toks, 1) == len(toks) - 1:
+                return R("option", None, ty, info=self.field_value(ty, toks[2:-1]))
+            raise Unsupported("field value `%s` for type %s" % (show(toks), fty))
+        if kind == "bytes":
+            r = self.parse(toks)
+            return R("bytes", P([], {}, env=self).bytes_of(r))
+        raise Unsupported("struct field of type %s" % fty)
+
+    def struct_default(self, sname):
+        """Type::default(): the struct literal written in `impl Default for Type`, field by field"""
+        defs = self.ctx.structs.get(sname, [])
+        if len(defs) != 1:
+            raise Unsupported("struct %s has %d definitions in the files read" % (sname, len(defs)))
+        file, fields = defs[0]
+        src = self.ctx.src[file]
+        ms = list(re.finditer(r"\bimpl\s+Default\s+for\s+%s\s*\{\s*fn\s+default\s*\(\s*\)\s*->\s*Self\s*\{" % re.escape(sname), src))
+        if len(ms) != 1:
+            raise Unsupported("%d `impl Default for %s` found" % (len(ms), sname))
+        depth, e = 1, ms[0].end()
+        while depth:
+            if e >= len(src):
+                raise Unsupported("unbalanced braces in %s::default" % sname)
+            depth += {"{": 1, "}": -1}.get(src[e], 0)
+            e += 1
+        toks = tokens(src[ms[0].end():e - 1])
+        if len(toks) < 3 or toks[0] != "Self" or toks[1] != "{" or match_close(toks, 1) != len(toks) - 1:
+            raise Unsupported("%s::default is not a single struct literal" % sname)
+        inner, i, given = toks[2:-1], 0, {}
+        while i < len(inner):
+            if i + 1 >= len(inner) or not isinstance(inner[i], str) or inner[i + 1] != ":":
+                raise Unsupported("%s::default: field initialiser `%s`" % (sname, show(inner[i:])))
+            j = find0(inner, i + 2, (",",))
+            j = len(inner) if j is None else j
+            given[inner[i]] = inner[i + 2:j]
+            i = j + 1
+        if sorted(given) != sorted(f for f, _ in fields):
+            raise Unsupported("%s::default does not initialise exactly the fields of %s" % (sname, sname))
+        saved, self.st = self.st, State({})                 # a Default impl sees no local variables
+        try:
+            values = dict((f, self.field_value(fty, given[f])) for f, fty in fields)
+        finally:
+            self.st = saved
+        self.notes.append("%s::default(): evaluated field by field from `impl Default for %s` in %s" % (sname, sname, file))
+        return R("structval", sname, info=values)
+
+    def struct_update(self, a, meth, p):
+        """v.meth(args) for `fn meth(mut self, x: T, ..) -> Self { self.f = E; if C { self.g = E; } self }`"""
+        sname = a[1]
+        file, fields = self.ctx.structs[sname][0]
+        ftypes = dict(fields)
+        params, ret, body = fn_sig(self.ctx.src[file], meth)
+        if not params or params[0][0] != "mut self" or ret != "Self":
+            raise Unsupported("method %s::%s is not `fn(mut self, ..) -> Self`" % (sname, meth))
+        p.eat("(")
+        vars_ = {"self": ("val", a)}
+        for pn, pt in params[1:]:
+            kind, ty = self.ctx.classify(pt)
+            if kind != "int":
+                raise Unsupported("parameter %s: %s of %s::%s" % (pn, pt, sname, meth))
+            x = p.expr(ty)
+            if ty_of(x) != ty or MARK in x[1]:
+                raise Unsupported("argument %s of %s::%s: type %s, expected %s" % (pn, sname, meth, ty_of(x), ty))
+            vars_[pn] = ("val", R("num", p.n(x), ty))
+            if p.peek() == ",":
+                p.eat()
+        p.eat(")")
+        values = dict(a.info)
+
+        def assign(stmts, cond):
+            for s_ in stmts:
+                t = s_[1]
+                if s_[0] == "expr" and len(t) > 4 and t[:2] == ["self", "."] and t[3] == "=" and t[2] in ftypes:
+                    kind, ty = self.ctx.classify(ftypes[t[2]])
+                    if kind != "int":
+                        raise Unsupported("assignment to the %s field %s" % (ftypes[t[2]], t[2]))
+                    vars_["self"] = ("val", R("structval", sname, info=dict(values)))
+                    new = self.parse(t[4:], ty)
+                    if new[0] != "num" or ty_of(new) != ty or MARK in new[1]:
+                        raise Unsupported("value assigned to %s" % t[2])
+                    values[t[2]] = new if cond is None else R("num", "(if %s then %s else %s)" % (cond, new[1], values[t[2]][1]), ty)
+                elif s_[0] == "if" and cond is None and s_[3] is None:
+                    vars_["self"] = ("val", R("structval", sname, info=dict(values)))
+                    c = self.parse(s_[1])
+                    if c[0] != "bool":
+                        raise Unsupported("condition in %s::%s" % (sname, meth))
+                    assign(s_[2], c[1])
+                elif s_[0] == "tail" and t == ["self"] and cond is None:
+                    return
+                else:
+                    raise Unsupported("statement in %s::%s: %s" % (sname, meth, show(t if s_[0] != "if" else ["if"] + s_[1])))
+        stmts = split_stmts(tokens(body))
+        if not stmts or stmts[-1] != ("tail", ["self"]):
+            raise Unsupported("%s::%s does not end with `self`" % (sname, meth))
+        saved, self.st = self.st, State(vars_)
+        try:
+            assign(stmts, None)
+        finally:
+            self.st = saved
+        self.notes.append(".%s(..): the field assignments of `fn %s(mut self, ..) -> Self` in %s, applied to that value" % (meth, meth, file))
+        return R("structval", sname, info=values)
+
+    def call(self, name, p, ex):
+        base = name.split("::")[-1]
+        if base == "default" and "::" in name and name.split("::")[-2] in self.ctx.structs:
+            p.eat("("); p.eat(")")
+            return self.struct_default(name.split("::")[-2])
+        if name == "Vec::new":
+            p.eat("("); p.eat(")")
+            return R("bytes", "[]")
+        if base == "build_box":
+            if (self.file, "build_box") not in self.ctx.sigs:
+                raise Unsupported("build_box of %s is not translated" % self.file)
+            p.eat("("); typ = p.bytes_of(p.expr()); p.eat(","); payload = p.bytes_of(p.expr()); p.eat(")")
+            return R("bytes", "(build_box %s %s)" % (typ, payload))      # the model's build_box; tied by build_box_source_agrees
+        if base in OPAQUE_FN:
+            p.eat("("); args, tys = [], []
+            while p.peek() != ")":
+                a = p.expr()
+                if a[0] == "num" and ty_of(a) and MARK not in a[1]:
+                    args.append(a[1]); tys.append("N")
+                else:
+                    args.append(p.bytes_of(a)); tys.append("list N")
+                if p.peek() == ",":
+                    p.eat()
+            p.eat(")")
+            pn, cty = "%s_fn" % base, " -> ".join(tys + ["list N"])
+            prev = [o for o in self.opaque if o[0] == pn]
+            if prev and prev[0][3] != cty:
+                raise Unsupported("%s called with different argument kinds" % base)
+            if not prev:
+                self.opaque.append((pn, base, OPAQUE_FN[base], cty))
+            return R("bytes", "(%s)" % " ".join([pn] + args))
+        if base in OPAQUE:
+            self.skip_args(p)
+            pn = coq_ident("%s_result" % base)
+            k = 2
+            while any(o[0] == pn for o in self.opaque):
+                pn = "%s_result%d" % (base, k); k += 1
+            self.opaque.append((pn, base, OPAQUE[base], "list N"))
+            return R("bytes", pn)
+        sig = self.ctx.sigs.get((self.file, base))
+        if sig is None:
+            cands = [s for (f, n), s in sorted(self.ctx.sigs.items()) if n == base] if "::" in name else []
+            if len(cands) != 1:
+                raise Unsupported("call of untranslated function %s" % name)
+            sig = cands[0]
+        if sig.opaque:
+            raise Unsupported("call of %s, whose translation has abstracted sub-terms (%s)" % (base, ", ".join(o[0] for o in sig.opaque)))
+        p.eat("(")
+        args = []
+        for prm in sig.params:
+            if p.peek() == ")":
+                raise Unsupported("too few arguments in the call of %s" % base)
+            if prm["kind"] == "int":
+                a = p.expr(prm["ty"])
+                if ty_of(a) not in (None, prm["ty"]) or MARK in a[1]:
+                    raise Unsupported("argument %s of %s: type %s, expected %s" % (prm["name"], base, ty_of(a), prm["ty"]))
+                args.append(p.n(a))
+            elif prm["kind"] == "bool":
+                args.append(p.b(p.expr()))
+            elif prm["kind"] in ("bytes", "str"):
+                args.append(p.bytes_of(p.expr()))
+            elif prm["kind"] == "optstr":
+                if p.peek() == "None":
+                    p.eat(); args.append("None")
+                else:
+                    a = p.expr()
+                    if a[0] != "optstr":
+                        raise Unsupported("argument %s of %s is not an Option<&str> parameter or None" % (prm["name"], base))
+                    args.append(a[1])
+            elif prm["kind"] == "struct":
+                a = p.expr()
+                if a[0] != "struct" or a.info != prm["ty"]:
+                    raise Unsupported("argument %s of %s is not a %s" % (prm["name"], base, prm["ty"]))
+                for f in prm["fields"]:
+                    x = self.struct_method(a, f[:-2]) if f.endswith("()") else self.field(a, f)
+                    args.append(x[1])
+            else:                                               # a parameter the callee's translation does not use
+                j = find0(p.t, p.i, (",", ")"))
+                if j is None:
+                    raise Unsupported("argument list of %s" % base)
+                p.i = j
+            if p.peek() == ",":
+                p.eat()
+        p.eat(")")
+        return R("bytes", "(%s)" % " ".join([sig.coq] + args) if args else sig.coq)
+
+    # ---- sharing: a local that is read several times becomes a Gallina `let`, otherwise it is inlined ----
+    def share(self, name, r):
+        """the value of the Rust local `name` at this point: a placeholder, resolved by finish()"""
+        if r[0] not in ("num", "bool", "bytes") or MARK in r[1] or not re.search(r"[ ;]", r[1]) or self.noshare:
+            return r
+        key = (name, r[0], r[1])
+        if key not in self.shared:
+            self.shared[key] = "\u2039%d\u203a" % len(self.shared)
+        return R(r[0], self.shared[key], r.ty)
+
+    def finish(self, result, taken):
+        """-> ([(let name, kind, text)], result) with every placeholder resolved"""
+        lets = []
+        for (name, kind, text), ph in reversed(list(self.shared.items())):
+            occ = result.count(ph) + sum(t.count(ph) for _, _, t in lets)
+            if occ == 0:
+                continue
+            if occ == 1:
+                sub = text
+            else:
+                sub, k = coq_ident(name), 2
+                while sub in taken:
+                    sub = "%s_%d" % (name, k); k += 1
+                taken.add(sub)
+            result = result.replace(ph, sub)
+            lets = [(n_, k_, t.replace(ph, sub)) for n_, k_, t in lets]
+            if occ > 1:
+                lets.insert(0, (sub, kind, text))
+        return lets, result
+
+    # ---- statements -----------------------------------------------------------------------------------
+    @staticmethod
+    def join(terms):
+        return "(%s)" % " ++ ".join(terms) if len(terms) > 1 else terms[0] if terms else "[]"
+
+    def buf(self, name):
+        v = self.st.vars.get(name)
+        if v is None or v[0] != "buf":
+            raise Unsupported("`%s` is not a byte buffer declared with Vec::new()/vec![]" % name)
+        return v[1]
+
+    def value(self, toks, ex=None):
+        """a let right-hand side / argument, classified"""
+        r = self.parse(toks, ex)
+        if r[0] == "struct":
+            raise Unsupported("struct value `%s` used as an expression" % r[1])
+        return r
+
+    def do_let(self, toks):
+        if toks and toks[0] == "mut":
+            mutable, toks = True, toks[1:]
+        else:
+            mutable = False
+        if toks and toks[0] == "(" and not mutable:
+            return self.do_tuple_let(toks)
+        if len(toks) < 3 or not isinstance(toks[0], str) or not re.fullmatch(r"[a-z_][A-Za-z_0-9]*", toks[0]):
+            raise Unsupported("let pattern: %s" % show(toks))
+        name = toks[0]
+        eq = find0(toks, 1, ("=",))
+        if eq is None or (eq != 1 and toks[1] != ":"):
+            raise Unsupported("let without initialiser: %s" % show(toks))
+        declared = "".join(t for t in toks[2:eq] if isinstance(t, str)) if eq != 1 else None
+        rhs = toks[eq + 1:]
+        if rhs[:3] == ["Vec::new", "(", ")"] and len(rhs) == 3:
+            self.st.vars[name] = ("buf", [])
+            return
+        if rhs[:2] == ["Vec::with_capacity", "("] and match_close(rhs, 1) == len(rhs) - 1:
+            self.st.vars[name] = ("buf", [])                     # the capacity does not affect the contents
+            return
+        if rhs[:3] == ["vec", "!", "["] and match_close(rhs, 2) == len(rhs) - 1:
+            r = self.parse(rhs, "u8")
+            self.st.vars[name] = ("buf", [r[1]])
+            return
+        if mutable:
+            raise Unsupported("let mut %s = %s" % (name, show(rhs)))
+        dty = declared if declared in INT_BITS else None
+        if declared is not None and dty is None and self.ctx.classify(declared)[0] != "bytes":
+            raise Unsupported("let %s: %s" % (name, declared))
+        r = self.value(rhs, dty)
+        if r[0] == "bytes":
+            self.st.vars[name] = ("val", r, "let")
+        elif r[0] in ("array", "structval", "option"):
+            self.st.vars[name] = ("val", r)
+        elif r[0] == "num" and (dty or ty_of(r)) and MARK not in r[1]:
+            self.st.vars[name] = ("val", R("num", r[1], dty or ty_of(r)), "let")
+        elif r[0] == "bool":
+            self.st.vars[name] = ("val", r, "let")
+        else:                                                    # type not determined by its own text: decided at each use
+            self.st.vars[name] = ("lazy", rhs, dty, self.st.fork().vars)
+
+    @staticmethod
+    def tuple_parts(toks):
+        """( a , b , c ) -> [a, b, c] (token lists)"""
+        if not toks or toks[0] != "(" or match_close(toks, 0) != len(toks) - 1:
+            raise Unsupported("expected a tuple: %s" % show(toks))
+        parts, i, inner = [], 0, toks[1:-1]
+        while i < len(inner):
+            j = find0(inner, i, (",",))
+            j = len(inner) if j is None else j
+            parts.append(inner[i:j]); i = j + 1
+        return parts
+
+    def do_tuple_let(self, toks):
+        """let (a, b, c) = (x, y, z);   let (a, b, c) = if C { (x, y, z) } else { (p, q, r) };
+        component-wise: a = if C { x } else { p }, ..."""
+        e = match_close(toks, 0)
+        names = self.tuple_parts(toks[:e + 1])
+        if e + 1 >= len(toks) or toks[e + 1] != "=" or any(len(n) != 1 or not isinstance(n[0], str) or not re.fullmatch(r"[a-z_][A-Za-z_0-9]*", n[0]) for n in names):
+            raise Unsupported("let pattern: %s" % show(toks))
+        rhs = toks[e + 2:]
+        if rhs and rhs[0] == "if":
+            b = find0(rhs, 1, ("{",))
+            if b is None:
+                raise Unsupported("tuple let: %s" % show(rhs))
+            e1 = match_close(rhs, b)
+            if rhs[e1 + 1:e1 + 3] != ["else", "{"] or match_close(rhs, e1 + 2) != len(rhs) - 1:
+                raise Unsupported("tuple let needs `if C { (..) } else { (..) }`: %s" % show(rhs))
+            cond, xs, ys = rhs[1:b], self.tuple_parts(rhs[b + 1:e1]), self.tuple_parts(rhs[e1 + 3:-1])
+            if len(xs) != len(names) or len(ys) != len(names):
+                raise Unsupported("tuple let: arity")
+            comps = [["if"] + cond + ["{"] + x + ["}", "else", "{"] + y + ["}"] for x, y in zip(xs, ys)]
+        else:
+            comps = self.tuple_parts(rhs)
+            if len(comps) != len(names):
+                raise Unsupported("tuple let: arity")
+        snapshot = State(self.st.vars).fork()
+        new = {}
+        for n, c in zip(names, comps):                       # every component sees the variables BEFORE the let
+            saved, self.st = self.st, State(dict(snapshot.vars))
+            try:
+                self.do_let([n[0], "="] + c)
+                new[n[0]] = self.st.vars[n[0]]
+            finally:
+                self.st = saved
+        self.st.vars.update(new)
+
+    def do_expr(self, toks):
+        if len(toks) >= 5 and isinstance(toks[0], str) and toks[1] == "." and toks[3] == "(" and match_close(toks, 3) == len(toks) - 1:
+            recv, meth, arg = toks[0], toks[2], toks[4:-1]
+            if meth == "extend_from_slice":
+                r = self.value(arg)
+                p = P([], {}, env=self)
+                self.buf(recv).append(p.bytes_of(r))
+                return
+            if meth == "push":
+                r = self.value(arg, "u8")
+                if r[0] != "num" or ty_of(r) not in (None, "u8") or MARK in r[1]:
+                    raise Unsupported("push of a non-u8 value: %s" % show(arg))
+                self.buf(recv).append("[%s]" % r[1])
+                return
+            raise Unsupported("method statement .%s(..)" % meth)
+        if len(toks) >= 4 and toks[0] in ("assert_invariant", "debug_assert", "debug_assert_eq") and toks[1] == "!" and toks[2] == "(":
+            c = find0(toks, 3, (",", ")"))
+            self.notes.append("precondition (the source panics otherwise): %s" % show(toks[3:c], 40))
+            if self.pre is not None:                         # also as a Gallina bool, in <name>_pre, when it can be translated
+                self.noshare = True
+                try:
+                    r = self.parse(toks[3:c]) if toks[0] != "debug_assert_eq" else None
+                    self.pre = self.pre + [r[1]] if r is not None and r[0] == "bool" and MARK not in r[1] else None
+                except Unsupported:
+                    self.pre = None
+                finally:
+                    self.noshare = False
+            return
+        raise Unsupported("statement form: %s" % show(toks))
+
+    def do_for(self, pat, it, body):
+        if len(pat) != 1 or not isinstance(pat[0], str) or not re.fullmatch(r"_|[a-z_][A-Za-z_0-9]*", pat[0]):
+            raise Unsupported("for pattern: %s" % show(pat))
+        if len(it) == 3 and it[1] == ".." and all(isinstance(x, str) and re.fullmatch(r"\d+", x) for x in (it[0], it[2])):
+            if pat[0] != "_":
+                raise Unsupported("for over a range with a used index")
+            values = [None] * max(0, int(it[2]) - int(it[0]))
+        elif len(it) == 1 and isinstance(it[0], str):
+            a = self.ident(it[0], None)
+            if a[0] != "array":
+                raise Unsupported("for over `%s`, which is not an array literal" % it[0])
+            values = a.elems
+        elif len(it) > 2 and it[0] == "0" and it[1] == ".." and pat[0] != "_" and len(body) == 1 and body[0][0] == "expr" \
+                and len(body[0][1]) == 6 and body[0][1][1:] == [".", "push", "(", pat[0], ")"]:
+            # for i in 0..E { B.push(i); }  with E: u8   ->   the bytes 0, 1, .., E-1
+            e = self.parse(it[2:])
+            if e[0] != "num" or ty_of(e) != "u8" or MARK in e[1]:
+                raise Unsupported("for over 0..E with E not a u8: %s" % show(it[2:]))
+            self.buf(body[0][1][0]).append("(map N.of_nat (seq 0 (N.to_nat %s)))" % e[1])
+            return
+        else:
+            raise Unsupported("for iterator: %s" % show(it))
+        if len(values) > 4096:
+            raise Unsupported("loop of %d iterations" % len(values))
+        for v in values:
+            saved = self.st.vars.get(pat[0])
+            if v is not None:
+                if ty_of(v) is None:
+                    raise Unsupported("for over an array whose element type is not written in the source")
+                self.st.vars[pat[0]] = ("val", v)
+            if self.run(body, False)[0] == "ret":
+                raise Unsupported("return inside a loop")
+            if v is not None:
+                if saved is None:
+                    del self.st.vars[pat[0]]
+                else:
+                    self.st.vars[pat[0]] = saved
+
+    def tail_bytes(self, toks):
+        r = self.value(toks)
+        return P([], {}, env=self).bytes_of(r)
+
+    def run(self, stmts, top):
+        """-> ("ret", Gallina bytes) | ("fall",)"""
+        for k, s in enumerate(stmts):
+            if s[0] == "let":
+                self.do_let(s[1])
+            elif s[0] == "expr":
+                self.do_expr(s[1])
+            elif s[0] == "for":
+                self.do_for(s[1], s[2], s[3])
+            elif s[0] == "return":
+                return ("ret", self.tail_bytes(s[1]))
+            elif s[0] == "tail":
+                if not top:
+                    raise Unsupported("block with a value: %s" % show(s[1]))
+                if k != len(stmts) - 1:
+                    raise Unsupported("internal: tail before the end")
+                return ("ret", self.tail_bytes(s[1]))
+            elif s[0] == "if" and s[1][:1] == ["let"]:
+                # if let Some(x) = [&]E { A } else { B } with E an Option known statically (a field of a struct value)
+                t = s[1]
+                if len(t) < 7 or t[1:3] != ["Some", "("] or t[4:6] != [")", "="] or not isinstance(t[3], str) or not re.fullmatch(r"[a-z_][A-Za-z_0-9]*", t[3]):
+                    raise Unsupported("if let pattern: %s" % show(t))
+                o = self.parse(t[6:])
+                if o[0] != "option":
+                    raise Unsupported("if let over a value that is not a statically known Option: %s" % show(t[6:]))
+                if o.info is None:
+                    block = s[3] or []
+                else:
+                    block = s[2]
+                    self.st.vars[t[3]] = ("val", o.info)
+                r_ = self.run(block, False)
+                if r_[0] == "ret":
+                    raise Unsupported("return inside if let")
+            elif s[0] == "if":
+                c = self.parse(s[1])
+                if c[0] != "bool":
+                    raise Unsupported("if condition is not boolean: %s" % show(s[1]))
+                base = self.st
+                self.st = st1 = base.fork(); r1 = self.run(s[2], False)
+                self.st = st2 = base.fork(); r2 = self.run(s[3], False) if s[3] is not None else ("fall",)
+                if r1[0] == "ret" or r2[0] == "ret":
+                    if not top:
+                        self.st = base
+                        raise Unsupported("return inside a nested block")
+                    outs = []
+                    for r, st in ((r1, st1), (r2, st2)):
+                        if r[0] == "ret":
+                            outs.append(r[1])
+                        else:
+                            self.st = st
+                            rr = self.run(stmts[k + 1:], True)
+                            if rr[0] != "ret":
+                                raise Unsupported("no value at the end of %s" % self.name)
+                            outs.append(rr[1])
+                    self.st = base
+                    return ("ret", "(if %s then %s else %s)" % (c[1], outs[0], outs[1]))
+                self.st = base
+                for name, v in base.vars.items():
+                    if v[0] != "buf":
+                        continue
+                    old, n1, n2 = v[1], st1.vars[name][1], st2.vars[name][1]
+                    if n1[:len(old)] != old or n2[:len(old)] != old:
+                        raise Unsupported("buffer %s is not only appended to inside an if" % name)
+                    e1, e2 = n1[len(old):], n2[len(old):]
+                    if e1 or e2:
+                        old.append("(if %s then %s else %s)" % (c[1], self.join(e1), self.join(e2)))
+            else:
+                raise Unsupported("internal: statement %s" % s[0])
+        return ("fall",)
+
+    def translate(self):
+        """-> (Gallina text, Sig)"""
+        src = self.ctx.src.get(self.file)
+        if src is None:
+            raise Unsupported("file %s was not read" % self.file)
+        params, ret, body = fn_sig(src, self.name)
+        if not re.fullmatch(r"Vec<u8>|\[u8;\s*\d+\]", ret):
+            raise Unsupported("return type `%s` is not a byte vector / array" % ret)
+        vars_, plist = {}, []
+        for pn, pt in params:
+            kind, ty = self.ctx.classify(pt)
+            if not re.fullmatch(r"_?[a-z][A-Za-z_0-9]*", pn):
+                raise Unsupported("parameter pattern %s" % pn)
+            plist.append(dict(kind=kind, name=pn, ty=ty, fields=[], rust=pt))
+            if kind == "int":
+                vars_[pn] = ("val", R("num", coq_ident(pn), ty))
+            elif kind in ("bool", "bytes", "optstr"):
+                vars_[pn] = ("val", R(kind, coq_ident(pn)))
+            elif kind == "str":
+                vars_[pn] = ("val", R("bytes", coq_ident(pn)))
+            elif kind == "struct":
+                vars_[pn] = ("struct", ty)
+            else:
+                vars_[pn] = ("other", pt)
+        self.st = State(vars_)
+        r = self.run(split_stmts(tokens(body)), True)
+        if r[0] != "ret":
+            raise Unsupported("no value at the end of %s" % self.name)
+        if MARK in r[1]:
+            raise Unsupported("a shift whose operand type is not written in the source")
+        binders = []
+        for prm in plist:
+            if prm["kind"] == "int":
+                binders.append("(%s : N)" % coq_ident(prm["name"]))
+            elif prm["kind"] == "bool":
+                binders.append("(%s : bool)" % coq_ident(prm["name"]))
+            elif prm["kind"] in ("bytes", "str"):
+                binders.append("(%s : list N)" % coq_ident(prm["name"]))
+            elif prm["kind"] == "optstr":
+                binders.append("(%s : option (list N))" % coq_ident(prm["name"]))
+            elif prm["kind"] == "struct":
+                for fn_, fty in self.ctx.struct_fields(prm["ty"]):          # declaration order of the struct
+                    if fn_ in self.used.get(prm["name"], ()):
+                        prm["fields"].append(fn_)
+                        k2, _ = self.ctx.classify(fty)
+                        binders.append("(%s : %s)" % (coq_ident("%s_%s" % (prm["name"], fn_)), {"int": "N", "bool": "bool", "bytes": "list N"}[k2]))
+                for m_ in self.methods.get(prm["name"], []):                # then the methods, in order of first use
+                    prm["fields"].append(m_)
+                    binders.append("(%s : %s)" % (coq_ident("%s_%s" % (prm["name"], m_[:-2])), {"int": "N", "bool": "bool"}[self.method_kind[(prm["name"], m_[:-2])]]))
+        for pn, callee, why, cty in self.opaque:
+            binders.append("(%s : %s)" % (pn, cty))
+        names = [b.split()[0][1:] for b in binders]
+        if len(set(names)) != len(names):
+            raise Unsupported("parameter names collide after flattening: %s" % names)
+        text = "(* %s :: %s *)\n" % (self.file, self.name)
+        for pn, callee, why, cty in self.opaque:
+            text += comment("NOT TRANSLATED: %s is the parameter %s (%s)" % (
+                "the function %s" % callee if "->" in cty else "the value returned by the call of %s" % callee, pn, why))
+        for n_ in self.notes:
+            text += comment(n_)
+        lets, result = self.finish(r[1], set(names) | RESERVED)
+        body_text = result[1:-1] if result.startswith("(") and match_paren_whole(result) else result
+        text += "Definition %s%s : list N :=\n" % (self.coq, "".join(" " + b for b in binders))
+        for n_, k_, t in lets:
+            text += "  let %s := %s in\n" % (n_, t[1:-1] if t.startswith("(") and match_paren_whole(t) else t)
+        text += "  %s.\n" % body_text
+        if self.pre:
+            pre = " && ".join(self.pre)
+            for (name_, kind_, text_), ph in reversed(list(self.shared.items())):     # locals are inlined here
+                pre = pre.replace(ph, text_)
+            words = set(re.findall(r"[A-Za-z_][A-Za-z_0-9']*", pre))
+            text += "Definition %s_pre%s : bool :=\n  %s.\n" % (
+                self.coq, "".join(" " + b for b in binders if b.split()[0][1:] in words), pre)   # only the parameters it mentions
+        if "\u2039" in text:
+            raise Unsupported("internal: unresolved placeholder")
+        return text, Sig(self.coq, plist, list(self.opaque))
+
+
+def match_paren_whole(s):
+    depth = 0
+    for k, ch in enumerate(s):
+        depth += {"(": 1, ")": -1}.get(ch, 0)
+        if depth == 0 and k < len(s) - 1:
+            return False
+    return depth == 0
+
+
+# (file, function, Gallina name), callees before callers
+MP4 = "src/muxer/mp4.rs"
+FRAG = "src/fragmented.rs"
+BUILDERS = [
+    (MP4, "build_box", "build_box_src"),
+    (MP4, "build_ftyp_box", "build_ftyp_box_src"),
+    (MP4, "build_vmhd_box", "build_vmhd_box_src"),
+    (MP4, "build_smhd_box", "build_smhd_box_src"),
+    (MP4, "build_url_box", "build_url_box_src"),
+    (MP4, "build_dref_box", "build_dref_box_src"),
+    (MP4, "build_dinf_box", "build_dinf_box_src"),
+    (MP4, "build_hdlr_box", "build_hdlr_box_src"),
+    (MP4, "build_sound_hdlr_box", "build_sound_hdlr_box_src"),
+    (MP4, "build_meta_hdlr_box", "build_meta_hdlr_box_src"),
+    (MP4, "build_mvhd_payload", "build_mvhd_payload_src"),
+    (MP4, "build_tkhd_box_with_id", "build_tkhd_box_with_id_src"),
+    (MP4, "build_tkhd_box", "build_tkhd_box_src"),
+    (MP4, "build_audio_tkhd_box", "build_audio_tkhd_box_src"),
+    (MP4, "build_mdhd_box_with_timescale_and_duration", "build_mdhd_box_src"),
+    (MP4, "build_stsc_box", "build_stsc_box_src"),
+    (MP4, "build_vpcc_box", "build_vpcc_box_src"),
+    (MP4, "build_vp09_box", "build_vp09_box_src"),
+    (MP4, "build_av1c_box", "build_av1c_box_src"),
+    (MP4, "build_av01_box", "build_av01_box_src"),
+    (MP4, "build_avcc_box", "build_avcc_box_src"),
+    (MP4, "build_avc1_box", "build_avc1_box_src"),
+    (MP4, "build_hvcc_box", "build_hvcc_box_src"),
+    (MP4, "build_hvc1_box", "build_hvc1_box_src"),
+    (MP4, "build_audio_specific_config", "build_audio_specific_config_src"),
+    (MP4, "build_esds_box", "build_esds_box_src"),
+    (MP4, "build_mp4a_box", "build_mp4a_box_src"),
+    (MP4, "build_dops_box", "build_dops_box_src"),
+    (MP4, "build_opus_box", "build_opus_box_src"),
+    (FRAG, "build_box", "build_box_fmp4_src"),
+    (FRAG, "build_ftyp_fmp4", "build_ftyp_fmp4_src"),
+    (FRAG, "build_mvhd_fmp4", "build_mvhd_fmp4_src"),
+    (FRAG, "build_mvex", "build_mvex_src"),
+    (FRAG, "build_tkhd_fmp4", "build_tkhd_fmp4_src"),
+    (FRAG, "build_mdhd_fmp4", "build_mdhd_fmp4_src"),
+    (FRAG, "build_hdlr_video", "build_hdlr_video_src"),
+    (FRAG, "build_vmhd", "build_vmhd_src"),
+    (FRAG, "build_dinf", "build_dinf_src"),
+    (FRAG, "build_empty_stts", "build_empty_stts_src"),
+    (FRAG, "build_empty_stsc", "build_empty_stsc_src"),
+    (FRAG, "build_empty_stsz", "build_empty_stsz_src"),
+    (FRAG, "build_empty_stco", "build_empty_stco_src"),
+    (FRAG, "build_stbl_fmp4", "build_stbl_fmp4_src"),
+    (FRAG, "build_avcc_fmp4", "build_avcc_fmp4_src"),
+    (FRAG, "build_avc1_fmp4", "build_avc1_fmp4_src"),
+    (FRAG, "build_hvc1_fmp4", "build_hvc1_fmp4_src"),
+    (FRAG, "build_av01_fmp4", "build_av01_fmp4_src"),
+    (FRAG, "build_vp09_fmp4", "build_vp09_fmp4_src"),
+    (FRAG, "build_mfhd", "build_mfhd_src"),
+    (FRAG, "build_tfhd", "build_tfhd_src"),
+    (FRAG, "build_tfdt", "build_tfdt_src"),
+]
+SOURCE_FILES = [MP4, FRAG, "src/codec/opus.rs", "src/codec/vp9.rs", "src/codec/av1.rs", "src/codec/h264.rs", "src/codec/h265.rs"]
+
+
+def generate_builders(repo):
+    """-> (coq text, problems)"""
+    ctx = Ctx(repo, SOURCE_FILES)
+    problems = list(ctx.problems)
+    text = ("\n(* ---- byte builders: one term per statement, widths taken from the Rust types in the source ---- *)\n"
+            "From Muxide Require Import Model.Base Model.Boxes.\nOpen Scope N_scope.\n\n")
+    for f, fn, coq in BUILDERS:
+        try:
+            t_, sig = ByteBuilder(ctx, f, fn, coq).translate()
+            ctx.sigs[(f, fn)] = sig
+            text += t_ + "\n"
+        except Unsupported as e:
+            problems.append("%s %s (byte builder): %s" % (f, fn, e))
+            text += comment("%s %s: NOT TRANSLATED: %s" % (f, fn, e)) + "\n"
+        except Exception as e:                                   # never raise: an unforeseen input is a problem entry
+            problems.append("%s %s (byte builder): internal error %s: %s" % (f, fn, type(e).__name__, e))
+            text += "(* %s %s: NOT TRANSLATED: internal error *)\n\n" % (f, fn)
+    return text, problems
+
+
 def generate(repo="/repo"):
-    """-> (coq text, list of problems)"""
+    """-> (coq text, list of problems); never raises"""
     problems = []
-    src = open(repo + "/src/muxer/mp4.rs").read()
+    try:
+        src = open(repo + "/src/muxer/mp4.rs").read()
+    except OSError as e:
+        src = ""
+        problems.append("src/muxer/mp4.rs: cannot read: %s" % e)
     text = "(* GENERATED on every run by gen/rust2coq.py from %s/src/muxer/mp4.rs: do not edit *)\nFrom Coq Require Import NArith List.\nOpen Scope N_scope.\n\n" % repo
     funcs = {}
     for name, coq, kw in (("days_to_ymd", "days_to_ymd_src", {}),
@@ -332,7 +1636,10 @@ def generate(repo="/repo"):
 
     def load(f):
         if f not in cache:
-            t_ = open(repo + "/" + f).read()
+            try:
+                t_ = open(repo + "/" + f).read()
+            except OSError as e:
+                raise Unsupported("cannot read %s: %s" % (f, e))
             for a_, b_ in REWRITES.get(f, []):
                 t_ = t_.replace(a_, b_)
             cache[f] = t_
@@ -351,6 +1658,12 @@ def generate(repo="/repo"):
         except Unsupported as e:
             problems.append("%s %s.%s: %s" % (f, fn, var, e))
             text += "(* %s.%s: NOT TRANSLATED: %s *)\n" % (fn, var, e)
+    try:
+        t_, p_ = generate_builders(repo)
+        text += t_
+        problems += p_
+    except Exception as e:                                       # defensive: generate never raises
+        problems.append("byte builders: internal error %s: %s" % (type(e).__name__, e))
     return text, problems
 
 
